@@ -252,6 +252,9 @@ def check(ctx):
         check_views(ctx, cfg)
         for f in ("slice_from_chunks", "slice_from_chunks_mut"):
             c10.check_flatten(ctx, cfg, c10.K + f)
+        # and the converse reinterpretation that rests on the same layout: a slice viewed as arrays plus a remainder stays inside the slice (C10.C)
+        for f in ("chunks_from_slice", "chunks_from_slice_mut"):
+            c10.check_chunks(ctx, cfg, c10.K + f)
     run_lattice(ctx, ctx.builds["F0"], ctx.tier, "F0")
     if ctx.tier == "thorough":
         from .. import run as R
